@@ -89,6 +89,10 @@ type Tools struct {
 	// BusyOnce: the first start of that tool in the run fails with ETXTBSY, later starts work
 	BusyOnce map[string]bool
 	busySeen bool
+	// FloodOnce: the first invocation of that tool in the run floods its output (TFFlood), the others
+	// behave (one flood is enough to meet a reader that stops reading; 5 MiB per invocation is dear)
+	FloodOnce map[string]bool
+	floodSeen map[string]bool
 	// gone: the copies of the tools in /usr/bin have been removed; other copies, in /usr/local/bin,
 	// are found through PATH instead (set by RunLint from RunOpts.ToolMoves)
 	gone bool
@@ -223,6 +227,13 @@ func (t *Tools) Run(argv []string, stdin string) kern.ToolResult {
 		if len(issues) > 0 {
 			code = 1
 		}
+	}
+	if t.FloodOnce[tool] && !t.floodSeen[tool] {
+		if t.floodSeen == nil {
+			t.floodSeen = map[string]bool{}
+		}
+		t.floodSeen[tool] = true
+		return kern.ToolResult{ExitCode: 1, Stdout: floodOutput}
 	}
 	switch t.fault(tool, stdin) {
 	case TFKilled:
